@@ -48,8 +48,8 @@ MANIFEST = {
             "compared node by node with boxes.BuildFormattingStructure on generated documents and wf is evaluated on the implementation's tree.",
     "note": "C09_create_anonymous_wf is total correctness (always returns, no panic / fuel exhaustion: bounded recursion of tableBoxesChildren, "
             "wrapTable's byType lookup, InlineInBlock's line-box panic, BlockInInline's resume stacks and termination) AND well-formedness, for "
-            "documents without position:running(); with running elements it is only a statement (C09_create_anonymous_wf_statement) checked by "
-            "the tie (a crash on one side only is a violation). Full slot disjointness is refuted. elementToBox is not modelled: "
+            "documents without position:running(); with running elements anywhere except a running table as the root it is proved as "
+            "C09_create_anonymous_wf_running (all five passes); the unrestricted statement is refuted (running root table: known finding).  Full slot disjointness is refuted. elementToBox is not modelled: "
             "'display:none generates no box' is proved for makeBox and checked on the implementation's tree. Trusted: Coq kernel (vm_compute), "
             "harness projection, hook html/boxes/verif_export_c09.go.",
     "technique": "Coq proof over executable model + vm_compute correspondence with the Go implementation",
